@@ -1,0 +1,44 @@
+//go:build verif
+
+package reverseproxy
+
+import "sync/atomic"
+
+// VerifCountHook observes one atomic mutation of a Host counter, right after
+// it happened. kind 0 = countRequest (numRequests), kind 1 = countFail (fails);
+// result is the value the atomic add returned.
+type VerifCountHook func(h *Host, kind int, delta int, result int64)
+
+var verifCountHook atomic.Pointer[VerifCountHook]
+
+// VerifSetCountHook installs (or, with nil, removes) the process-wide observer.
+func VerifSetCountHook(f VerifCountHook) {
+	if f == nil {
+		verifCountHook.Store(nil)
+		return
+	}
+	verifCountHook.Store(&f)
+}
+
+func verifCountEvent(h *Host, kind int, delta int, result int64) {
+	if f := verifCountHook.Load(); f != nil {
+		(*f)(h, kind, delta, result)
+	}
+}
+
+// VerifHostsEntry reports the usage count of key in the global hosts pool and
+// the Host object stored there (nil, 0, false when the key is absent).
+func VerifHostsEntry(key string) (host *Host, refs int, ok bool) {
+	refs, ok = hosts.References(key)
+	if !ok {
+		return nil, 0, false
+	}
+	hosts.Range(func(k, v any) bool {
+		if k == key {
+			host, _ = v.(*Host)
+			return false
+		}
+		return true
+	})
+	return host, refs, ok
+}
